@@ -132,6 +132,14 @@ func (tx *Tx) recursivelyCheckBucket(b *Bucket, reachable map[common.Pgid]*commo
 		return
 	}
 
+	// Two bucket headers sharing one tree only exist in a corrupted file, and
+	// when a bucket points back at one of its ancestors the walk below would
+	// never end (it used to overflow the stack). Report it and stop here.
+	if _, ok := reachable[b.RootPage()]; ok {
+		ch <- fmt.Errorf("page %d: multiple references (root of more than one bucket)", int(b.RootPage()))
+		return
+	}
+
 	tx.checkInvariantProperties(b.RootPage(), reachable, freed, kvStringer, ch)
 
 	// Check each bucket within this bucket.
